@@ -1,0 +1,71 @@
+//go:build verif && !noasm && !appengine && gc
+// +build verif,!noasm,!appengine,gc
+
+package simdjson
+
+// Accessors for the verification harness (build tag "verif").
+
+// VerifRingSlots returns the number of index buffers in the ring.
+func VerifRingSlots() int { return indexSlots }
+
+// VerifIndexBufferSize returns the flush threshold of an index buffer and its physical size.
+func VerifIndexBufferSize() (flushAt, size int) { return indexSizeWithSafetyBuffer, indexSize }
+
+// VerifObjState is the part of a reusable parser object that must not leak between calls.
+type VerifObjState struct {
+	HasInternal bool
+	ChanLen     int
+	ChanCap     int
+	NDJSON      uint64
+	ScopeDepth  int
+	Obj         uintptr
+}
+
+// VerifState reports the internal state attached to pj.
+func VerifState(pj *ParsedJson) VerifObjState {
+	if pj == nil || pj.internal == nil {
+		return VerifObjState{}
+	}
+	in := pj.internal
+	s := VerifObjState{HasInternal: true, NDJSON: in.ndjson, ScopeDepth: len(in.containingScopeOffset)}
+	if in.indexChans != nil {
+		s.ChanLen, s.ChanCap = len(in.indexChans), cap(in.indexChans)
+	}
+	return s
+}
+
+// VerifStage1 runs stage 1 alone over buf and returns the absolute positions
+// of the structural indexes it emitted, per index buffer, and its verdict.
+// The kernel family is the one selected by the CPU feature set.
+func VerifStage1(buf []byte, ndjson bool) (positions [][]uint32, ok bool) {
+	pj := &internalParsedJson{}
+	pj.Message = buf
+	pj.initialize(len(buf))
+	if ndjson {
+		pj.ndjson = 1
+	}
+	pj.indexChans = make(chan indexChan, indexSlots-2)
+	pj.buffersOffset = ^uint64(0)
+	done := make(chan struct{})
+	go func() {
+		defer close(done)
+		pos := ^uint64(0)
+		for ic := range pj.indexChans {
+			if ic.index == -1 {
+				return
+			}
+			out := make([]uint32, ic.length)
+			for i, inc := range ic.indexes[:ic.length] {
+				pos += uint64(inc)
+				out[i] = uint32(pos)
+			}
+			positions = append(positions, out)
+		}
+	}()
+	ok = pj.findStructuralIndices()
+	<-done
+	return positions, ok
+}
+
+// VerifParseNumber exposes parseNumber: tag word (0 = rejected) and value word.
+func VerifParseNumber(buf []byte) (tag, val uint64) { return parseNumber(buf) }
